@@ -463,8 +463,20 @@ def run_case(fam, impl, rng, rec, tag, *, ledger_mode=False, refuse=True,
         # (memory only: read everything back so that a freed or foreign
         # object still referenced from a slot is touched)
         try:
-            repr(harness.contents(A, a_map))
-            repr(harness.contents(B, b_map))
+            if refused and exc is not None:
+                # a refused load inside a deleting operator can leave an
+                # emptied leaf linked (recorded finding F38, judged by C17 /
+                # C01 / C03): the range search behind keys() / items() has
+                # an assert() about that in the assert-enabled builds.  Every
+                # slot is read through the nodes' states instead.
+                for o_, m_ in ((A, a_map), (B, b_map)):
+                    if type(o_).__name__.endswith(('BTree', 'TreeSet')):
+                        walker.walk(o_, m_, check_sizes=False).release()
+                    else:
+                        repr(harness.contents(o_, m_))
+            else:
+                repr(harness.contents(A, a_map))
+                repr(harness.contents(B, b_map))
         except Exception:
             pass
         conn.abort()
